@@ -119,6 +119,21 @@ def scalar_special_pairs(rng, ops=("mul_s", "rmul_s", "muleq_s", "div_s", "diveq
     SPECIAL.update(out)
     return out
 def _scalar_special_pairs(rng, ops):
+    out = _scalar_special_pairs0(rng, ops)
+    if any(o.startswith(("mul", "rmul")) for o in ops):
+        mops = [o for o in ops if "mul" in o]
+        # exact product within |n| of +-2^63 for small and medium n (an overflow test through an inexact estimate)
+        for n in sorted(set(rng.randrange(2, 5000) for _ in range(120)) | set(rng.randrange(5000, 2**31) for _ in range(60)) | {2, 3, 5, 7, 10, 100, 206, 788, 1000, 6007, 1000003}):
+            for lim in (2**63, 2**63 - 1, F):
+                q = lim // n
+                for a in (q, q + 1, q - 1):
+                    for sa, sn in ((1, 1), (-1, 1), (1, -1), (-1, -1)):
+                        for t in ("i32", "i64", "u32", "u64", "ll"):
+                            lo, hi = int_type_range(gen.TYPE_ALIAS.get(t, t))
+                            if lo <= sn * n <= hi and abs(a) <= F:
+                                for f in mops: out.append("%s:%s %d %d" % (f, t, sa * a, sn * n))
+    return out
+def _scalar_special_pairs0(rng, ops):
     """(raw, integer) pairs for the mixed operators that no single-operand boundary list produces:
     both operands at an integer square root of a limit (the product sits on the limit), and the dividends that trap
     when divided by -1 in a narrower signed type (INT_MIN of every width, also scaled by 2^16)"""
@@ -505,6 +520,11 @@ def double_patterns(rng, n):
                 float("inf"), float("-inf"), float("nan"), 5e-324, 2.2250738585072014e-308, 1e308, -1e308, 2.0**31, -(2.0**31),
                 1.0 / 65536, 0.5 / 65536, 1.5 / 65536, 2.5 / 65536, 0.49999999999999994 / 65536, 0.25, 1e-5, 3.0e-6, 7.62939453125e-06]
     for v in specials: out.add(gen.d2b(v))
+    for e_ in range(-40, 64):        # the bit-pattern neighbours of every power of two, of 3*2^e and of 2^e + 1 ulp of fixed
+        for base_ in (2.0 ** e_, 3 * 2.0 ** e_, 2.0 ** e_ + 1.0 / 65536, 2.0 ** e_ - 1.0 / 65536, 2.0 ** e_ + 0.5 / 65536):
+            b_ = gen.d2b(base_)
+            for d_ in (-2, -1, 0, 1, 2):
+                if 0 <= b_ + d_ < 2**64: out.add(b_ + d_); out.add((b_ + d_) | (1 << 63))
     for _ in range(n):
         k = rng.randrange(0, 2**47)
         for d in (0, 0.5, -0.5, 0.25, 0.4999999, 0.5000001):
@@ -524,6 +544,11 @@ def float_patterns(rng, n, exhaustive_stride=None):
               1.0 / 65536, 0.5 / 65536, 1.5 / 65536, 128.0, 8388608.0, 16777216.0, 90.0, 180.0, 360.0, -90.0, 45.0]:
         out.add(gen.f2b(v))
     out.add(0x7fc00000); out.add(0xffc00000); out.add(0x7f800001)
+    for e_ in range(-40, 40):
+        for base_ in (2.0 ** e_, 3 * 2.0 ** e_, 2.0 ** e_ + 1.0 / 65536):
+            b_ = gen.f2b(base_)
+            for d_ in (-2, -1, 0, 1, 2):
+                if 0 <= b_ + d_ < 2**32: out.add(b_ + d_); out.add((b_ + d_) | (1 << 31))
     for _ in range(n):
         out.add(rng.getrandbits(32))
         e = rng.randrange(-30, 34)
@@ -971,6 +996,9 @@ class C11(Suite):
         for v in range(0, top, 7): out.append("atan %d" % (-v))
         for v in range(0, 28672 + 5): out.append("atan_k16 %d" % v)
         out += atan_whole_numbers()
+        lits = [c for c in gen.scrape_literals() if 256 <= c < 2**40]
+        for x in gen.shifted_quotient_probes(lits):
+            if x < 2**47: out.append("atan %d" % x); out.append("atan %d" % (-x)); out.append("atan2 %d 65536" % x)
         n = 6000 if tier == "quick" else 300000
         for _ in range(n):
             x = gen.strat(rng, 47); out.append("atan %d" % x); out.append("atan %d" % (-x)); out.append("atan %d" % (x + 1))
